@@ -41,6 +41,14 @@ var zzTexts = []string{
 var zzURIs = []DocumentURI{"file:///one.num", "file:///two.num", "file:///three.num"}
 
 // zzNotifications runs f and returns the publishDiagnostics notifications it sent.
+// zzOpen opens a document through the public entry point (not through the unexported
+// helper behind it, whose signature is an implementation detail).
+func zzOpen(state *State, uri DocumentURI, text string) {
+	_ = zzNotifications(func() {
+		Handle(zzRequest("textDocument/didOpen", DidOpenTextDocumentParams{TextDocument: TextDocumentItem{URI: uri, LanguageID: "numscript", Version: 1, Text: text}}), state)
+	})
+}
+
 func zzNotifications(f func()) []PublishDiagnosticsParams {
 	var out []PublishDiagnosticsParams
 	if zzvrt.Symbolic() {
@@ -263,7 +271,7 @@ func ZZC19Step(pre, method, uriIdx, textIdx, text2Idx string) {
 	if method == "hover" || method == "definition" || method == "documentSymbol" {
 		fresh := InitialState()
 		if t, ok := latest[uri]; ok {
-			_ = zzNotifications(func() { fresh.updateDocument(uri, t) })
+			zzOpen(&fresh, uri, t)
 		}
 		var want any
 		_ = zzNotifications(func() { want = Handle(req, &fresh) })
@@ -277,7 +285,7 @@ func ZZC19Nav(textIdx string) {
 	text := zzTexts[int(textIdx[0]-'0')]
 	uri := zzURIs[0]
 	state := InitialState()
-	_ = zzNotifications(func() { state.updateDocument(uri, text) })
+	zzOpen(&state, uri, text)
 	doc := state.documents[uri]
 	prog := doc.CheckResult.Program
 
